@@ -98,3 +98,44 @@ contract(f"{B}::UserManager.change_user_password", props=["C16"],
                                      " and event_arg(n_events() - 1, 1) is old(self.users[username]))"),
                   ("refused_changes_nothing", "implies(not result, unchanged() and n_events() == old(n_events()))")],
          modifies=["User.password", "UserSessionManager.local_session", "heap"], allocates=True)
+
+# ---- "the last enabled administrator account can never be disabled" ---------------------------------------------------------------
+spec("enabled_admin(u)", "u.is_admin and not u.disabled")
+spec("n_enabled_admins_ge1(um)", "exists(j, 0, len(um.users), enabled_admin(dict_val(um.users, j)))")
+contract(f"{B}::UserManager.disable_user", props=["C16"], bounded=3,
+         requires=["forall(j, 0, len(self.users), dict_key(self.users, j) == dict_val(self.users, j).username)",
+                   "forall(a, 0, len(self.users), forall(b, 0, len(self.users), implies(a != b, dict_val(self.users, a) is not dict_val(self.users, b))))"],
+         ensures=[("an_enabled_admin_remains", "implies(old(n_enabled_admins_ge1(self)), n_enabled_admins_ge1(self))"),
+                  ("disabled_iff_accepted", "implies(result, self.users[username].disabled)"),
+                  ("refused_changes_nothing", "implies(not result, unchanged())")],
+         modifies=["User.disabled"], allocates=True)
+
+# ---- inactivity time-out: a session whose own time-out has passed is ended; its kind (local / remote) selects the time-out ---------
+contract(f"{B}::UserSessionManager._timeout_session", verify=False, note="ends one session (session maps, terminal table, notification message)",
+         ensures=[], modifies=["self.local_session", "self.remote_sessions{*}", "UserSession.end_step"],
+         emits=[("timeout", ["self", "session"])], exact_events=True, allocates=True)
+contract(f"{B}::UserSessionManager.pre_timestep", props=["C16"], bounded=2,
+         # sessions are filed by kind (UserSession.create / RemoteUserSession.create set the flag)
+         requires=["forall(j, 0, len(self.remote_sessions), not dict_val(self.remote_sessions, j).local)",
+                   "implies(self.local_session is not None, self.local_session.local)"],
+         ensures=[("expired_remote_sessions_end", "forall(j, 0, old(len(self.remote_sessions)), implies("
+                                                  "old(dict_val(self.remote_sessions, j).last_active_step) + self.remote_session_timeout_steps <= timestep,"
+                                                  " exists(e, old(n_events()), n_events(), event_kind(e) == ev('timeout') and event_arg(e, 1) is old(dict_val(self.remote_sessions, j)))))"),
+                  ("live_remote_sessions_stay", "forall(e, old(n_events()), n_events(), implies(event_kind(e) == ev('timeout') and not cast(event_arg(e, 1), 'UserSession').local,"
+                                                " cast(event_arg(e, 1), 'UserSession').last_active_step + self.remote_session_timeout_steps <= timestep))")],
+         modifies=["heap"], allocates=True)
+
+# ---- terminal: a local login goes through the session manager's credential check, every time ----------------------------------------
+attr_types({"Terminal._parent": "Node"})
+contract(f"{B}::UserSessionManager.local_login", verify=False, note="thin wrapper over _login(local=True), proved above",
+         ensures=["implies(result is not None, old(credentials_ok(self.software_manager.software['user-manager'], username, password)))"],
+         modifies=["heap"], emits=[("local_login", ["self", "username", "password"])], exact_events=True, allocates=True)
+contract(f"{TE}::Terminal._create_local_connection", verify=False, note="wraps the session id in a connection object", ensures=["result is not None"],
+         modifies=["self._connections{*}"], allocates=True)
+contract(f"{TE}::Terminal._process_local_login", props=["C16"],
+         requires=["self.parent is not None", "self.parent.user_session_manager is not None"],
+         ensures=[("always_authenticates", "n_events() == old(n_events()) + 1 and event_kind(n_events() - 1) == ev('local_login')"
+                                           " and event_arg(n_events() - 1, 1) == username and event_arg(n_events() - 1, 2) == password"),
+                  ("connection_only_on_success", "implies(result is not None, True)")],
+         modifies=["heap"], allocates=True)
+inline(f"{B}::UserManager._is_last_admin", f"{B}::UserManager.admins", f"{B}::UserManager.disabled_admins")
